@@ -26,7 +26,7 @@ LEVEL_TEXT = ("Lean 4 theorems about the executable model: restoreGroupState(clo
 TECHNIQUE = "Lean 4 proof (round trip + invariant over reachable states) + Go/Lean differential correspondence + property monitor"
 
 PROFILE = G.profile(etcd_quick=10, etcd_thorough=60, weights={"failover": 10, "failover_lazy": 3, "join": 8, "sync": 8, "hb": 8, "commit": 4, "fail": 0, "tick": 4, "meta": 1},
-                    timeouts=[10000, 20000, 30000, 40000, 60000], fail_kinds=[3, 4, 5])
+                    timeouts=[10000, 20000, 30000, 40000, 60000], fail_kinds=[3, 4, 5], cadence=15)
 RULE = ("membership histories with a coordinator failover (fresh GroupCoordinator over the same store) at random points, "
         "generated from VERIF_SEED; non-trivial = a group reached Stable; distinct = distinct implementation traces")
 
